@@ -10,8 +10,12 @@ import (
 	"flag"
 	"fmt"
 	"os"
+	"runtime"
 	"runtime/debug"
+	"strings"
+	"sync/atomic"
 	"testing"
+	"time"
 )
 
 var (
@@ -76,7 +80,86 @@ func finish(res *RunResult, verbose bool, sample bool) {
 	}
 }
 
+// spinWatchdog: what a quiescence-based simulator cannot see by itself is a goroutine that
+// never blocks. If no quiescence has been reached for spinSecs of REAL time although a run is
+// in progress, and two stack dumps five seconds apart show the same goroutine on the CPU
+// inside go-upf (not inside the simulator or its accessors), the process reports it the way a
+// crash is reported - "panic: no progress ..." and that goroutine's stack on stderr, exit
+// status 2 - and the orchestrator attributes it to the run in flight, replays and reports
+// it like any other crash. Anything else that stalls (the harness itself) is left to the
+// orchestrator's own watchdog, which calls it harness trouble.
+var runActive atomic.Bool
+
+var flagSpinSecs = flag.Int("sim.spinsecs", 0, "real seconds without quiescence before a CPU-bound go-upf goroutine is reported (0: 60, 150 under the race detector)")
+
+func busyUPFGoroutines() map[string]string {
+	buf := make([]byte, 8<<20)
+	buf = buf[:runtime.Stack(buf, true)]
+	out := map[string]string{}
+	for _, blk := range strings.Split(string(buf), "\n\n") {
+		lines := strings.Split(blk, "\n")
+		if len(lines) < 2 || !strings.HasPrefix(lines[0], "goroutine ") {
+			continue
+		}
+		hdr := lines[0]
+		i := strings.Index(hdr, "[")
+		if i < 0 || !(strings.HasPrefix(hdr[i+1:], "running") || strings.HasPrefix(hdr[i+1:], "runnable")) {
+			continue
+		}
+		// the innermost frame that belongs to the go-upf module decides
+		for _, l := range lines[1:] {
+			if strings.HasPrefix(l, "\t") || !strings.Contains(l, "free5gc/go-upf/") {
+				continue
+			}
+			if strings.Contains(l, "/verifsim.") || strings.Contains(l, "/simhook.") || strings.Contains(l, "Verif") {
+				break
+			}
+			out[strings.Fields(hdr)[1]] = blk
+			break
+		}
+	}
+	return out
+}
+
+func spinWatchdog() {
+	limit := *flagSpinSecs
+	if limit == 0 {
+		limit = 60
+		if raceBuild {
+			limit = 150
+		}
+	}
+	last, since := int64(-1), time.Now()
+	for {
+		time.Sleep(2 * time.Second)
+		q := quiescences.Load()
+		if !runActive.Load() || q != last {
+			last, since = q, time.Now()
+			continue
+		}
+		if time.Since(since) < time.Duration(limit)*time.Second {
+			continue
+		}
+		a := busyUPFGoroutines()
+		time.Sleep(5 * time.Second)
+		b := busyUPFGoroutines()
+		if quiescences.Load() != last {
+			continue
+		}
+		for id, blk := range b {
+			if _, ok := a[id]; ok {
+				fmt.Fprintf(os.Stderr, "panic: no progress: a go-upf goroutine has been on the CPU for tens of seconds of real time without the simulation reaching quiescence (unbounded computation?)\n\n%s\n", blk)
+				os.Exit(2)
+			}
+		}
+		since = time.Now() // not go-upf: the orchestrator's watchdog will deal with it
+	}
+}
+
 func TestSim(t *testing.T) {
+	go spinWatchdog()
+	runActive.Store(true)
+	defer runActive.Store(false)
 	// runaway recursion in go-upf ends the process at 64 MB of stack instead of 1 GB:
 	// same fatal error, found in a fraction of a second and without 16 workers taking a
 	// gigabyte each
